@@ -41,13 +41,16 @@ MODES = [{}, {"pre_expand": True}, {"expand_all": True},
 def floors(tier):
     return {"oracle.parse.post": 1000, "oracle.walker": 1000, "counters.gen.G1": 1, "counters.gen.G3": 1,
             "counters.gen.G4": 1, "counters.gen.G2": 1, "counters.gen.G5": 1, "sets.handlers": 20,
-            "counters.reentrant-hook-calls": 200}
+            "counters.reentrant-hook-calls": 200, "oracle.repo-tests.walker": 300}
 
 
 def shards(tier, seed):
     n = 16
     per = {"quick": 2500, "thorough": 120000}[tier]
-    return [{"seed": seed * 1000 + i, "n": per, "idx": i, "nsh": n} for i in range(n)]
+    sh = [{"seed": seed * 1000 + i, "n": per, "idx": i, "nsh": n} for i in range(n)]
+    # one more workload: the repository's own tests (incl. the Lua-facing ones, with stand-ins) under the same walker
+    sh.append({"seed": seed, "kind": "repo-tests"})
+    return sh
 
 
 _REAL = None
@@ -273,7 +276,32 @@ def run_case(mon, obs, text, mode, gen):
     return probs
 
 
+def run_repo_tests_shard(spec):
+    from vf.core.repotests import run_repo_tests
+    obs = Obs()
+    d = run_repo_tests()
+    if d is None:
+        obs.inconclusive.append("repository tests under the monitor plugin produced no report")
+        return obs
+    obs.count("repo-tests.tests-run", d.get("tests", 0))
+    obs.check("repo-tests.walker", d.get("walker", 0))
+    obs.check("repo-tests.parse.post", d.get("evals", {}).get("parse.post", 0))
+    obs.count("gen.repo-tests", d.get("walker", 0))
+    for rule, msg, test, text in d.get("walker_fails", []):
+        sig = rule
+        if sig.endswith("/placeholder-char-in-input"):
+            sig = "placeholder-char-in-input/malformed-tree"
+        obs.violation(sig, "%s (during %s)" % (msg, test), {"text": text, "mode": 0, "gen": "repo-tests", "test": test})
+    for name, dd, test in d.get("contract_fails", []):
+        if name.startswith("parse.post"):
+            obs.violation(name, "%s (during %s)" % (dd, test), {"text": "", "mode": 0, "gen": "repo-tests", "test": test})
+    obs.case("repo-tests", nontrivial=True, sample={"gen": "repo-tests", "tests": d.get("tests"), "trees-walked": d.get("walker")})
+    return obs
+
+
 def run_shard(spec):
+    if spec.get("kind") == "repo-tests":
+        return run_repo_tests_shard(spec)
     from vf.gen import soup, docs
     obs = Obs()
     rng = random.Random(spec["seed"])
